@@ -140,7 +140,7 @@ def _gen_flags(rng, k):
 
 def generate(rng, k):
     if k["population"] == "invivo":
-        return invivo.gen_invivo_ops(rng)
+        return invivo.gen_invivo_ops(rng, p_history=0.0)
     ops = []
     events = [f"E{p}" for p in k["event_picks"][:k["n_events"]]]   # resolved to real kinds by the executor
     hid = 0
